@@ -307,6 +307,20 @@ def run(ctx):
                 a0 = fmt(n["args"][0]) if n.get("args") else ""
                 ctx.check(a0 == "%s.name()" % pname, "R03.4", g, "provided-by-name", "the provided set receives %s instead of the option's name" % a0, (g, n.get("ln")))
         ctx.check(kinds_seen == set(KINDS), "R03.4", parse, "provided-all-kinds", "the provided set is not built for all kinds: %s" % sorted(kinds_seen), parse)
+    # ---- R03.6: the ranking starts from a clean slate - check() tells "nothing on the command line" from the value state,
+    # so that state must have been emptied before the tokens were applied (C14's R14.2 re-evaluated)
+    ctx.rule("R03.6", "value state is emptied by prepare() before the command line is applied (R14.2 re-evaluated): a value of an earlier parse cannot outrank the environment")
+    if ctx.prop == "C03":
+        from . import C14
+        sub = type(ctx)(ctx.prop, ctx.prog, ctx.tier)
+        C14.run(sub)
+        n6 = 0
+        for o in sub.obs:
+            if o.rule == "R14.2":
+                n6 += 1
+                o.rule = "R03.6"
+                ctx.obs.append(o)
+        ctx.need("R03.6", "reset obligations shared with C14", n6, 3)
     ctx.assume("process-environment races (setenv while parse runs) are outside the claim")
     ctx.assume("nothing is decided about the contents of values beyond verbatimness")
 
